@@ -333,6 +333,42 @@ func c14r3(r *R) {
 		}
 	})
 	os.Check(goW, "Start does not start the Watch goroutine")
+	// … on every path on which both files could be watched: the goroutine start is conditional on nothing but the list
+	// being exhausted, and a return before it happens only when an Add failed
+	eachInstr(stt, func(i ssa.Instruction) {
+		g, isGo := i.(*ssa.Go)
+		if isGo && calleeName(&g.Call) == "(*certwatcher.CertWatcher).Watch" {
+			for _, alt := range c.pathAlts(i.Block()) {
+				for _, l := range alt {
+					okLit := strings.Contains(l, "(*github.com/fsnotify/fsnotify.Watcher).Add(") && (strings.HasSuffix(l, " == nil)") || strings.HasPrefix(l, "+(nil == ")) ||
+						(strings.Contains(l, "builtin.len(") && strings.Contains(l, "phi("))
+					os.AtI(i).Check(okLit, "the Watch goroutine is started only under %s (conditions %v): without it certificate changes are never picked up", l, alt)
+				}
+			}
+		}
+		if ret, isRet := i.(*ssa.Return); isRet {
+			started := false
+			for _, b := range stt.Blocks {
+				for _, j := range b.Instrs {
+					if g2, ok := j.(*ssa.Go); ok && calleeName(&g2.Call) == "(*certwatcher.CertWatcher).Watch" && instrDominates(j, i) {
+						started = true
+					}
+				}
+			}
+			if started {
+				return
+			}
+			for _, alt := range c.pathAlts(ret.Block()) {
+				failed := false
+				for _, l := range alt {
+					if strings.Contains(l, "(*github.com/fsnotify/fsnotify.Watcher).Add(") && (strings.HasSuffix(l, " != nil)") || strings.HasPrefix(l, "+(nil != ")) {
+						failed = true
+					}
+				}
+				os.AtI(i).Check(failed, "Start returns without starting the Watch goroutine although no watcher.Add failed (conditions %v)", alt)
+			}
+		}
+	})
 	addsS := callsIn(stt, "(*github.com/fsnotify/fsnotify.Watcher).Add")
 	if os.Check(len(addsS) == 1, "Start has %d watcher.Add sites", len(addsS)) {
 		e := c.Expr(callOf(addsS[0]).Args[1])
